@@ -215,9 +215,31 @@ def r1(ctx):
 
 
 # ------------------------------------------------------------------------------------------------
+def resolve_delegate(prog, f, enum_pat, depth=0):
+    """the function that actually matches over `self`: f itself, or — when f only wraps it (`fn v(&self, x) { self.v_impl(x, …) }`) — the
+    same-type method it forwards `self` to.  Returns (function, [names on the chain])"""
+    names = [f.name]
+    cur = f
+    while depth < 3 and not self_switches(cur, enum_pat):
+        nxt = []
+        for c in cur.calls:
+            if c.bb in cur.live_blocks and c.args and c.args[0][0] != "k" and any(o.kind == "param" and o.ref == 1 and not field_path(o.proj) for o in cur.trace_operand(c.args[0])):
+                for t in prog.call_targets(c):
+                    g = prog.fns.get(t)
+                    if g is not None and g.impl_self == cur.impl_self and not g.impl_trait:
+                        nxt.append(g)
+        if len(nxt) != 1:
+            break
+        cur = nxt[0]
+        names.append(cur.name)
+        depth += 1
+    return cur, names
+
+
 def visits(prog, fn, calls, visitor, want_variant=None, want_field=None):
+    vis = {visitor} if isinstance(visitor, str) else set(visitor)
     for c in calls:
-        if c.name != visitor or not c.args:
+        if c.name not in vis or not c.args:
             continue
         for f, o in receiver_roots(prog, c.fn, c.args[0]):
             if f is fn and o.kind == "param" and o.ref == 1:
@@ -308,6 +330,7 @@ def r3(ctx, bearing):
     ctx.ob("R3", "support/NthChild evaluates of_rule on siblings incl. self", sup_nth or len(fi) != 1 and False,
            "NthChild::find_index calls parent(), children() and a matcher on them" if sup_nth else "supporting fact for the NthChild row not found (find_index changed?)", nontrivial=False)
     if cc:
+        cc, cc_names = resolve_delegate(prog, cc, re.escape(RULE))
         sws = self_switches(cc, re.escape(RULE))
         if not sws:
             ctx.ob("R3", "check_cyclic/switch", False, "no match over self", where=cc.loc())
@@ -327,7 +350,27 @@ def r3(ctx, bearing):
                         for t in prog.call_targets(c):
                             reach |= prog.reach([t])
                     names = {prog.fns[r].name for r in reach if r in prog.fns}
-                    follows = "eval_local" in names and "check_cyclic" in names
+                    follows = "eval_local" in names and bool(set(cc_names) & names)
+                    # …unconditionally: the follow must not be switched off by a flag parameter of the visitor (a "shallow" mode for
+                    # registered utils misses cycles of three or more utils spanning the maps)
+                    flags = []
+                    for b2 in sorted(arms.get(v, set())):
+                        si2 = cc.switch_info(b2)
+                        if si2 and "true" in si2["arms"] and si2["op"][0] != "k":
+                            if any(o.kind == "param" and cc.locals[o.ref] == "bool" for o in cc.trace_operand(si2["op"])):
+                                flags.append(b2)
+                    # and the re-entry from the resolved rule goes to the visitor itself with no constant-false flag
+                    shallow = []
+                    for r in reach:
+                        g = prog.fns.get(r)
+                        if g is None:
+                            continue
+                        for c2 in g.calls:
+                            if c2.name in cc_names and prog.call_targets(c2) and set(prog.call_targets(c2)) <= {cc.id}:
+                                for a in c2.args:
+                                    if a[0] == "k" and a[1].get("ty") == "bool" and a[1].get("v") == "false":
+                                        shallow.append(g.id)
+                    follows = follows and not flags and not shallow
                     rr = prog.find_fns(r"rule_config::.*register_rewriters$")
                     shared = False
                     if len(rr) == 1:
@@ -338,7 +381,7 @@ def r3(ctx, bearing):
                            "several `utils` maps (rule + each rewriter, in a loop over clones of one env) are registered into one registration, but the cycle check on insertion only compares the id of a direct reference and the toposort looks at one map at a time: a cycle spanning two maps is accepted -> unbounded recursion",
                            where=cc.loc())
                     continue
-                hit = visits(prog, cc, calls, "check_cyclic", want_variant=v)
+                hit = visits(prog, cc, calls, cc_names, want_variant=v)
                 ctx.ob("R3", "check_cyclic/%s" % v, hit is not None,
                        ("arm %s recurses into its sub-rules" % v) if hit else "Rule::check_cyclic does not descend into %s (%s): a utility can require itself on the same node without being rejected -> unbounded recursion at match time" % (v, why),
                        where=cc.loc())
@@ -366,6 +409,7 @@ def r3(ctx, bearing):
             ctx.ob("R3", "visit_dependent_rule_ids/%s" % field, field in touched,
                    ("toposort visitor reads SerializableRule.%s" % field) if field in touched else "the dependency visitor never looks at SerializableRule.%s (%s): cyclic utilities through it are not detected and registration order ignores it" % (field, why),
                    where=vd.loc())
+        visitor_examines_all_fields(ctx, "R3", vd)
     # global utilities: a RuleCore is matched on one node through its rule, its constraints (a constraint on a variable bound to
     # the node itself) and its local utils; the dependency visitor of global utils must look at all of them
     gv = prog.find_fns(r"^<\(L, ast_grep_config::rule_core::SerializableRuleCore\) as ast_grep_config::rule::deserialize_env::DependentRule>::visit_dependency$")
@@ -406,6 +450,14 @@ def r3(ctx, bearing):
         vs = [c for c in f.calls if c.name == "visit"]
         ok = bool(uv) and bool(vs) and any(any(o.kind == "call" and o.ref in uv for o in deep_roots(prog, f, c.args[1])) for c in vs)
         ctx.ob("R3", "Transformation::visit_dependency", ok, "sorter.visit receives the variable returned by used_vars()", where=f.loc())
+        # …for EVERY variant: no path from entry to a return avoids the visit (the sort is the only detector of cyclic
+        # transformations: check_var_in_transform defines all keys before it looks at the sources)
+        from ..query import path_avoiding
+        skip = bool(vs) and path_avoiding(f, 0, [c.bb for c in vs], list(f.return_blocks()))
+        ctx.ob("R3", "Transformation::visit_dependency visits on every path", bool(vs) and not skip,
+               "every path through visit_dependency reports the source variable to the sorter" if vs and not skip else
+               "some transformation (a branch on the variant) returns without reporting its source variable to the sorter: a dependency cycle through it is accepted "
+               "and the order of application ignores it", where=f.loc())
     # transformations (and utils) are applied/registered in the order get_order returns: it must be the post-order vector
     from . import c13
     from ..core import Ctx
@@ -531,3 +583,28 @@ def r5(ctx):
         ct = [c for c in cf.calls if c.name == "contains"]
         ctx.ob("R5", "check_var_in_fix compares used_vars() against the defined set", bool(uv) and bool(ct),
                "check_var_in_fix calls Fixer::used_vars and HashSet::contains", where=cf.loc())
+
+
+def visitor_examines_all_fields(ctx, rid, vd):
+    """every successful return of the dependency visitor has examined every same-node field: the `Maybe` test of each field
+    dominates every block that assigns `_0 = Ok(..)` (an early `return Ok(())` inside one field's arm skips the siblings)"""
+    from ..query import self_switches, assigns_ret_variant
+    sw = {}
+    for bi, si in self_switches(vd, r"Maybe", param=1):
+        for o in vd.trace_place(si["place"]):
+            if o.kind == "param" and o.ref == 1:
+                fp = field_path(o.proj)
+                if fp:
+                    sw.setdefault(fp[0], bi)
+    oks = assigns_ret_variant(vd, vd.live_blocks, "Ok")
+    ctx.ob(rid, "visit_dependent_rule_ids/success exits found", bool(oks), "%d block(s) assign Ok" % len(oks), where=vd.loc(), nontrivial=False)
+    for v, (why, field) in sorted(SAME_NODE.items()):
+        bi = sw.get(field)
+        if bi is None:
+            ctx.ob(rid, "visit_dependent_rule_ids/%s examined before success" % field, False, "no Maybe test of SerializableRule.%s found in the visitor" % field, where=vd.loc())
+            continue
+        early = [b for b in oks if not vd.dominates(bi, b)]
+        ctx.ob(rid, "visit_dependent_rule_ids/%s examined before success" % field, not early,
+               "the test of `%s` dominates every Ok return" % field if not early else
+               "the visitor can return Ok (bb%s) without having looked at `%s` (%s): dependencies through it are missing from the order, so utilities are registered "
+               "in hash-map order and cyclic ones are not detected" % (early, field, why), where=vd.loc())
